@@ -1,10 +1,10 @@
 #!/bin/bash
-# Creates / refreshes a shadow copy of /repo and /verif under /tmp/shadow so that seeded changes can be
+# Creates / refreshes a shadow copy of /repo and /verif under ${SHADOW:-/tmp/shadow} so that seeded changes can be
 # tried without touching /repo (path dependencies of the shadow engine point at the shadow repo).
 set -e
-mkdir -p /tmp/shadow
-rsync -a --delete --exclude target /repo/ /tmp/shadow/repo/
-rsync -a --delete --exclude 'engine/target*' --exclude 'engine/fuzz/target' --exclude work --exclude replays --exclude .git /verif/ /tmp/shadow/verif/
-grep -rl '"/repo/' /tmp/shadow/verif/engine --include=Cargo.toml | xargs -r sed -i 's#"/repo/#"/tmp/shadow/repo/#g'
-git -C /tmp/shadow/repo checkout -q -- . 
+mkdir -p ${SHADOW:-/tmp/shadow}
+rsync -a --delete --exclude target /repo/ ${SHADOW:-/tmp/shadow}/repo/
+rsync -a --delete --exclude 'engine/target*' --exclude 'engine/fuzz/target' --exclude work --exclude replays --exclude .git /verif/ ${SHADOW:-/tmp/shadow}/verif/
+grep -rl '"/repo/' ${SHADOW:-/tmp/shadow}/verif/engine --include=Cargo.toml | xargs -r sed -i "s#\"/repo/#\"${SHADOW:-/tmp/shadow}/repo/#g"
+git -C ${SHADOW:-/tmp/shadow}/repo checkout -q -- . 
 echo "shadow ready"
